@@ -123,3 +123,87 @@ def extension_roundtrip_stream(ctx, res, prop="C19"):
             res.violate(prop + ":reload-differs:extension", "a file written by a successful save of a configuration that uses extension points (own representation, own on-disk form, "
                         "config-type subclass items, a user-defined format) does not load back equal", dict(case, problems=problems[:4]))
 
+
+
+def include_and_blank_roundtrip_stream(ctx, res, prop="C19"):
+    """(a) a configuration loaded through include fields — at the root and two scopes down — whose fragments name only PART of
+    sections two and three levels deep (values that agree with what the configuration holds), further values set in the same
+    sections, saved and loaded back: every value is there again (a merge that replaces instead of recursing loses the neighbours);
+    (b) blank-ish texts (`' \\t '`, `'\\n'`, `'//'`) given to required / stripping / constrained string fields: either refused at
+    assignment, or — if accepted — the file a successful save writes loads back equal"""
+    import json as _json
+    import cincoconfig as cc
+    tmp = os.path.realpath(ctx.tmpdir())
+    d = os.path.join(tmp, "inc-rt-%s" % prop)
+    os.makedirs(d, exist_ok=True)
+    for fmt in ["json", "yaml", "bson", "xml", "pickle"]:
+        F_ = cc.ConfigFormat.get(fmt)
+        s = cc.Schema()
+        s.include = cc.IncludeField(startdir=d)
+        s.name = cc.StringField(default="n")
+        s.server.tls.include = cc.IncludeField(startdir=d)
+        s.server.tls.cert = cc.StringField(default="c")
+        s.server.tls.port = cc.IntField(default=443)
+        s.server.tls.ciphers = cc.ListField(cc.StringField(), default=lambda: [])
+        s.server.tls.options.min_version = cc.StringField(default="1.0")
+        s.server.tls.options.ocsp = cc.BoolField(default=False)
+        s.db.pool.size = cc.IntField(default=5)
+        s.db.pool.timeout = cc.IntField(default=30)
+        s.db.host = cc.StringField(default="h")
+        with open(os.path.join(d, "root." + fmt), "wb") as fp:
+            fp.write(F_.dumps(None, {"db": {"pool": {"size": 20}}, "server": {"tls": {"options": {"ocsp": True}}}}))
+        with open(os.path.join(d, "tls." + fmt), "wb") as fp:
+            fp.write(F_.dumps(None, {"port": 8443, "options": {"ocsp": True}}))
+        case = {"stream": "include-roundtrip", "fmt": fmt}
+        res.case(stable(case), kind="include-roundtrip:" + fmt)
+        try:
+            cfg = s()
+            cfg.loads(F_.dumps(None, {"include": "root." + fmt, "name": "www", "server": {"tls": {"include": "tls." + fmt}}}), format=fmt)
+            cfg.server.tls.cert = "www.pem"
+            cfg.server.tls.ciphers = ["AES256", "CHACHA20"]
+            cfg.server.tls.options.min_version = "1.2"
+            cfg.db.pool.timeout = 99
+            cfg.db.host = "db1"
+            dest = os.path.join(d, "saved." + fmt)
+            cfg.save(dest, fmt)
+            back = s()
+            back.load(dest, fmt)
+            a, b = cfg.to_tree(), back.to_tree()
+        except Exception as e:  # noqa
+            res.violate(prop + ":reload-differs:include", "saving and loading a configuration that names include files raised %s" % type(e).__name__, dict(case, error=str(e)[:120]))
+            continue
+        if a != b:
+            res.violate(prop + ":reload-differs:include", "a file written by a successful save of a configuration that names include files (fragments naming part of nested "
+                        "sections) does not load back equal", dict(case, saved=_json.dumps(a, sort_keys=True)[:300], loaded=_json.dumps(b, sort_keys=True)[:300]))
+    for label, mk in (("required + strip", lambda: cc.StringField(required=True, transform_strip=True)), ("required + strip '/'", lambda: cc.StringField(required=True, transform_strip="/")),
+                      ("required", lambda: cc.StringField(required=True)), ("strip + min_len", lambda: cc.StringField(transform_strip=True, min_len=1)),
+                      ("required filename", lambda: cc.FilenameField(required=True, transform_strip=True)), ("required + strip + lower", lambda: cc.StringField(required=True, transform_strip=True, transform_case="lower"))):
+        for text in (" \\t ", "\\n", "//", " ", "/ /", "x"):
+            for fmt in ("json", "yaml", "xml"):
+                s = cc.Schema()
+                s.owner.name = mk()
+                s.owner.note = cc.StringField(default="n")
+                cfg = s()
+                cfg.owner.name = "first"
+                dest = os.path.join(d, "blank-%s.%s" % (prop, fmt))
+                cfg.save(dest, fmt)
+                case = {"stream": "blank-roundtrip", "field": label, "text": text, "fmt": fmt}
+                res.case(stable(case), kind="blank-roundtrip")
+                try:
+                    cfg.owner.name = text
+                except Exception:  # noqa
+                    continue
+                try:
+                    cfg.save(dest, fmt)
+                except Exception:  # noqa
+                    continue
+                try:
+                    back = s()
+                    back.load(dest, fmt)
+                    ok = back.to_tree() == cfg.to_tree()
+                    err = None
+                except Exception as e:  # noqa
+                    ok, err = False, "%s: %s" % (type(e).__name__, str(e)[:80])
+                if not ok:
+                    res.violate(prop + ":reload-differs:blank", "a blank-ish text was accepted by a required / stripping string field, the save succeeded, and the file does not load back",
+                                dict(case, held=repr(cfg.owner.name), error=err))
